@@ -217,12 +217,16 @@ def extra(rng, tier):
         k = rng.randrange(n - 2)
         qs = rng.choice([[mid(xs[k], xs[k + 1]), xs[k + 1]], [xs[k], xs[k + 1], xs[k + 2]], [mid(xs[k + 1], xs[k + 2]), xs[k + 1], xs[k]],
                          [xs[k + 1], mid(xs[k], xs[k + 1]), xs[k + 1]]])
+        if rng.random() < 0.4:
+            # a long non-decreasing batch (more queries than knots) that visits every knot exactly (seed C20-r8m1: a kernel for rising
+            # batches that finds the run of queries per interval with `<= x[i+1]`)
+            qs = sorted(list(xs) + [mid(a_, b_) for a_, b_ in zip(xs, xs[1:])])
         two = rng.random() < 0.35
         if not two:
             flat = gen.vals_q(rng, n) if S == "Q" else [rng.uniform(-9, 9) for _ in range(n)]
             base = len(lines)
             lines.append(i1_line(S, xs, [n], flat, ("lin", ext), e_array(S, [len(qs)], qs, qtag=rng.choice(["sta", "dyn"])), xlay=lx, dlay=ld))
-            for j, q in enumerate(qs):
+            for j, q in (list(enumerate(qs)) if len(qs) <= 4 else rng.sample(list(enumerate(qs)), 4)):
                 i = lin_bracket(xs, q)
                 f2 = list(flat)
                 for r in range(n):
@@ -236,7 +240,7 @@ def extra(rng, tier):
             flat = gen.vals_q(rng, 3 * n) if S == "Q" else [rng.uniform(-9, 9) for _ in range(3 * n)]
             base = len(lines)
             lines.append(i2_line(S, xs, ya, [n, 3], flat, ext, e_array(S, [len(qs)], qs, qy, qtag=rng.choice(["sta", "dyn"])), xlay=lx, dlay=ld))
-            for j, q in enumerate(qs):
+            for j, q in (list(enumerate(qs)) if len(qs) <= 4 else rng.sample(list(enumerate(qs)), 4)):
                 i = lin_bracket(xs, q)
                 f2 = list(flat)
                 for a in range(n):
